@@ -2,3 +2,4 @@ pub mod cid;
 pub mod data;
 pub mod show;
 pub mod tracewf;
+pub mod scope;
